@@ -48,6 +48,7 @@ type mSession struct {
 	Groups                                                           []string
 	UserName, Email, CommonName, Surname, GivenName, ScopedAff, EPPN string
 	Custom                                                           []mAttribute
+	EmptyNotNil                                                      bool // hand empty slices to the library as non-nil empty slices (same session for the model)
 }
 
 func (v mAttrValue) term() string {
